@@ -220,6 +220,14 @@ func (vc *FuncVC) lookupIdent(env *Env, name string) *CVal {
 			}
 		}
 	}
+	if name == "mappos" || name == "mapcard" {
+		if it, names := vc.mapRangeOf(env.loop); it != nil {
+			if name == "mappos" {
+				return &CVal{T: env.st.get(it.comp), Typ: types.Typ[types.Int]}
+			}
+			return &CVal{T: names.n, Typ: types.Typ[types.Int]}
+		}
+	}
 	if p := vc.knownPkg(name); p != nil {
 		return &CVal{Pkg: p}
 	}
@@ -922,6 +930,24 @@ func (vc *FuncVC) evalCall(env *Env, x *ECall) *CVal {
 		}
 		_, es := arrayParts(sort)
 		return &CVal{T: Select(env.logState().get(comp), arg(1).T, es), Typ: vc.logTypes[comp]}
+	case "mappos", "mapkey", "mapidx", "mapcard":
+		// the ghost enumeration of the map ranged over by the innermost enclosing map-range loop
+		// (or by the loop given as extra first argument: mappos(outer) is not supported)
+		it, names := vc.mapRangeOf(env.loop)
+		if it == nil {
+			panic(fmt.Errorf("%s: no enclosing range-over-map loop", name))
+		}
+		ks := vc.sortOf(it.mapType.Key())
+		switch name {
+		case "mappos":
+			return &CVal{T: env.st.get(it.comp), Typ: types.Typ[types.Int]}
+		case "mapcard":
+			return &CVal{T: names.n, Typ: types.Typ[types.Int]}
+		case "mapkey":
+			return &CVal{T: T(app(names.keyAt, arg(0).T), ks), Typ: it.mapType.Key()}
+		default:
+			return &CVal{T: T(app(names.idxOf, arg(0).T), SInt), Typ: types.Typ[types.Int]}
+		}
 	case "outer":
 		if env.loop == nil {
 			panic(fmt.Errorf("outer() outside a loop invariant"))
@@ -1088,6 +1114,11 @@ func (vc *FuncVC) typeIDByName(name string) Term {
 	if !ok {
 		id = len(vc.typeIDs) + 1
 		vc.typeIDs[name] = id
+	}
+	if _, known := vc.concreteTypes[id]; !known {
+		if t, ok := vc.tryResolveType(name); ok {
+			vc.concreteTypes[id] = t
+		}
 	}
 	return IntLit(int64(id))
 }
@@ -1305,4 +1336,34 @@ func (vc *FuncVC) tryResolveType(src string) (t types.Type, ok bool) {
 		}
 	}()
 	return vc.resolveType(src, ""), true
+}
+
+// mapRangeOf finds the range-over-map iteration of loop li (its header takes Next of it),
+// searching enclosing loops outward.
+func (vc *FuncVC) mapRangeOf(li *loopInfo) (*iterInfo, iterNames) {
+	if li == nil {
+		// outside loops: the function's only range-over-map loop, if unique
+		var found ssa.Value
+		n := 0
+		for v, it := range vc.iterOf {
+			if !it.isStr {
+				found = v
+				n++
+			}
+		}
+		if n == 1 {
+			return vc.iterOf[found], vc.iterNames[found]
+		}
+		return nil, iterNames{}
+	}
+	for ; li != nil; li = li.parent {
+		for _, in := range li.header.Instrs {
+			if nx, ok := in.(*ssa.Next); ok {
+				if it := vc.iterOf[nx.Iter]; it != nil && !it.isStr {
+					return it, vc.iterNames[nx.Iter]
+				}
+			}
+		}
+	}
+	return nil, iterNames{}
 }
